@@ -81,6 +81,9 @@ MENU: dict[str, str] = {
     "cls_prop": "class P@:\n    @property\n    def p@(self) -> int:\n        return 1\n",
     "cls_static": "class S@:\n    @staticmethod\n    def s@(q: int) -> int:\n        return q\n\n    @classmethod\n    def c@(cls, q: int) -> int:\n        return q\n",
     "cls_internal_base": "class _B@:\n    def pm@(self, w: T) -> T:\n        return w\n\n\nclass D@(_B@):\n    pass\n",
+    # two kinds that share a FIXED private class name: nested in a public class / on top level as the base of a public class
+    "cls_nested_private_named": "class W@:\n    class _OptS:\n        def raw@(self) -> int:\n            return 1\n",
+    "cls_base_same_private_name": "class _OptS:\n    def describe@(self) -> int:\n        return 1\n\n\nclass Btn@(_OptS):\n    pass\n",
     "enum": "class E@(Enum):\n    A@ = 1\n    B@ = 2\n",
     "gvar": "v@: int = 1\n",
 }
